@@ -39,15 +39,8 @@ U("c12_tokenize_post", ["C12", "C15"], "h_tokenize", ["C12/tok.c"], ["critic_mar
   functions=["mmd_critic_tokenize_string"], callees={"ac_trie_leftmost_longest_search/trie_*": "contract stubs (Aho-Corasick assumed): ordered non-overlapping matches inside the requested range", "token_new/token_append_child": "body"},
   native=None, min_obligations=20, assumptions=[NOFAIL, "Aho-Corasick search returns ordered, non-overlapping, non-empty matches inside [start, start+len) (assumed)"])
 
-# ---- tokenizer end to end (real Aho-Corasick construction + search + leftmost-longest filter) on short sources
-for _sn, _tier in ((2, "quick"), (3, "thorough")):
-    U("c12_tokenize_e2e_N%d" % _sn, ["C12"], "h_search", ["C12/search.c"], ["critic_markup.c", "aho-corasick.c", "token.c", "char.c"], plain=True, lib=(), kind="bounded", tier=_tier,
-      defines=["-DDISABLE_OBJECT_POOL", "-DSN=%d" % _sn], bounds={"source bytes=": _sn, "alphabet": "{ } + - ~ > = < backslash and one letter", "unwind": 300},
-      cbmc_flags=["--unwind", "300", "--unwinding-assertions", "--object-bits", "12"], checks=["--no-standard-checks"],
-      functions=["mmd_critic_tokenize_string", "trie_new", "trie_insert", "ac_trie_prepare", "ac_trie_search", "match_set_filter_leftmost_longest", "ac_trie_leftmost_longest_search"],
-      callees={"all": "body"}, native=None, min_obligations=20, timeout=900, cost=200,
-      assumptions=[NOFAIL, "bytes outside the marker alphabet behave like the letter 'a' (the trie has no edge for them)"])
-
+# (an end-to-end unit of the tokenizer with the real trie construction + search, C12/search.c, did not finish for 2-byte sources in 700 s
+#  nor for 3-byte sources in 900 s: not registered)
 # ---- the leftmost-longest filter on match lists in search order
 U("c12_filter_leftmost_longest", ["C12"], "h_filter", ["C12/filter.c"], ["aho-corasick.c"], plain=True, lib=(), kind="bounded",
   defines=["-DNM=3"], bounds={"matches<=": 3, "match lengths": "2 or 3 (the pattern set)", "positions<=": 12, "unwind": 8},
